@@ -21,15 +21,15 @@ CHECKS = {
         note=NOTE, technique="bounded-exhaustive enumeration of programs; token-tree comparison of recorded macro input vs output (identity model)",
         ref="DESIGN.md §3 C02"),
     "C03": dict(
-        text="10 dependency forms (&impl, unused `_: &impl`, &D inline / declared after the const parameters / where-bound, by-value generic / impl, concrete by reference and by value, no_deps) x every "
+        text="12 dependency forms (&impl, `(&impl)` in parentheses, unused `_: &impl`, &D inline / declared after the const parameters / where-bound / bound by a `for<>` where-predicate, by-value generic / impl, concrete by reference and by value, no_deps) x every "
              "extra-parameter word <= 1 (quick) / <= 2 (thorough) over 21 symbols {i64, &X elided, &'b X named, T: Bound inline, U where-bound, [u8; N] with const N, impl "
              "Trait, &dyn, fn pointer, impl Fn, Box<dyn>, slice, tuple, where-predicates naming 'static / for<> before a fn lifetime or a fn lifetime inside the arguments of a trait bound, outlives-related lifetimes, "
-             "destructuring / mut / wildcard patterns} x container {single fn, one of two fns of a module, next to a twin fn with the same generic parameter names} x qualifiers {none, async, unsafe, extern \"C\", unsafe extern \"C\", async unsafe} x 9 return kinds (unit, owned, borrowed from deps elided / named, "
-             "borrowed from an argument, generic T, Result, Option<&'a>, impl Trait) x options {none, mock_api, mockall, ?Send} x both features (~23k states "
+             "destructuring / mut / wildcard patterns} x container {single fn, one of two fns of a module, next to a twin fn with the same generic parameter names, macro_rules-stamped with the dependency type as a `$d:ty` fragment} x qualifiers {none, async, unsafe, extern \"C\", unsafe extern \"C\", async unsafe} x 10 return kinds (unit, owned, borrowed from deps elided / named, "
+             "borrowed from an argument named / elided, generic T, Result, Option<&'a>, impl Trait) x options {none, mock_api, mockall, ?Send} x both features (~23k states "
              "in quick). Each state is compiled to a fixpoint (every rustc error attributed to its state, borrowck included) and run; for sync fns the function "
              "and the trait method must both coerce to the one most-general fn-pointer type written by the generator (higher-ranked lifetimes, unsafe / extern "
              "qualifiers), for async fns the Output is ascribed; scope witnesses check that a return borrowed from deps does not depend on the arguments and "
-             "vice versa; the direct and the trait call must return the model's value.",
+             "vice versa; the direct and the trait call must return the model's value. Five further programs have type / const parameters that only the body uses.",
         note=NOTE, technique="bounded-exhaustive enumeration of signatures on the real macro; fixpoint compilation + fn-pointer coercion witnesses + executed client",
         ref="DESIGN.md §3 C03"),
     "C04": dict(
@@ -37,8 +37,9 @@ CHECKS = {
              "x 8 mock settings (none, mockall, mockall=false, mock_api only, mock_api+unimock, unimock=false, unimock=false+mockall, mock_api+mockall=false) x both crate features for single fns, and "
              "all 64 pairs (S1,S2) x receiver combinations x mock settings for two-fn modules (three-fn modules in thorough). Per state 48 runtime "
              "availability probes `implements!(X: Tr)` / `implements!(Impl<X>: Tr)` over probe types implementing exactly each subset in three auto-trait "
-             "flavours (everything / Sync-only / Send-only) must equal the model's iff; a second naming scheme (two different traits whose paths end in the same segment) and modules whose fns carry an enabled `#[cfg]` are enumerated too; plus a negative compile probe for 'static per declaration form.",
-        note=NOTE + " 'static is decided by a negative compile probe on one witness type (lifetimes are invisible to runtime probes).",
+             "flavours (everything / Sync-only / Send-only) must equal the model's iff; a second naming scheme (two different traits whose paths end in the same segment) and modules whose fns carry an enabled or a disabled `#[cfg]` are enumerated too; plus a negative compile probe for 'static per declaration form.",
+        note=NOTE + " 'static is decided by a negative compile probe on one witness type (lifetimes are invisible to runtime probes). One open known finding "
+             "(bounds of a #[cfg]-disabled module fn are still required) is listed in known_findings.json.",
         technique="exhaustive enumeration of bound-declaration programs on the real macro; runtime trait-availability truth table vs iff model",
         ref="DESIGN.md §3 C04"),
     "C05": dict(
@@ -52,7 +53,7 @@ CHECKS = {
         technique="exhaustive enumeration of concrete-dependency programs on the real macro; executed trace + availability probes vs model",
         ref="DESIGN.md §3 C05"),
     "C06": dict(
-        text="Every method word of length <= 2 (quick) / <= 3 (thorough) over 21 method shapes (provided methods incl. `where Self: Sized` and pattern parameters, macro_rules-stamped hygiene shapes incl. a macro-named method, unsafe / extern methods, the typed receiver `self: &Self`, const-before-type method generics, 0-2 arguments incl. same-typed adjacent ones, &str, borrowed "
+        text="Every method word of length <= 2 (quick) / <= 3 (thorough) over 21 method shapes (provided methods incl. `where Self: Sized` and pattern parameters, macro_rules-stamped hygiene shapes incl. a macro-named method, unsafe / extern methods, the typed receiver `self: &Self`, const-before-type method generics, a method type parameter that no argument mentions, 0-2 arguments incl. same-typed adjacent ones, &str, borrowed "
              "returns from arguments and from self, trait-generic and method-generic parameters, four async shapes) x selector {default, Self, ref, Borrow} x "
              "{non-generic, generic, bound+default generic, const-before-type generic} trait x supertrait/where clause x {native async, async_trait} is compiled and run against a tracing provider: one event per call, on "
              "the provider reached through the selected route (address), arguments in order, result unchanged; and `Impl<X>: Trait` is probed at run time "
@@ -119,7 +120,7 @@ CHECKS = {
         technique="exhaustive enumeration of async programs on the real macro; compile-time witnesses, runtime Send probe, negative compile probes, structural view",
         ref="DESIGN.md §3 C12"),
     "C13": dict(
-        text="Every (input mode, requested visibility, item visibility) program - fn: 10 requested (incl. pub(self), pub(in self), pub(in super), pub(in super::super), pub(in super::super::super), pub(in crate::path)) x 3 fn visibilities, and exporting variants; mod: 3 requested x module visibility "
+        text="Every (input mode, requested visibility, item visibility) program - fn: 10 requested (incl. pub(self), pub(in self), pub(in super), pub(in super::super), pub(in super::super::super), pub(in crate::path)) x 3 fn visibilities, and exporting variants; mod: 7 requested (incl. pub(self), pub(super), pub(in super::super)) x module visibility "
              "x fn visibility, through the re-export and through the module; trait: 4 trait visibilities x static/ref delegation target x attribute-side "
              "visibility - x 5 probe scopes (defining scope, parent, grandparent, crate root, a second crate). One probe per unit: it must compile exactly "
              "where Rust's visibility lattice allows it and be rejected with a privacy error elsewhere; the visibility tokens of the emitted trait and "
@@ -148,7 +149,7 @@ CHECKS = {
         text="Every pattern word up to length 3 (quick) / 4 (thorough) over a 17-symbol pattern alphabet (plain, mut, ref, raw identifier, wildcard, "
              "tuple, tuple-struct with 1 binding, with binding+wildcard, struct pattern, reference pattern, binding named like the function, bindings "
              "named like would-be generated names argN/_argN/f_, destructuring whose binding is the function name, the function's name / a would-be generated name in the other raw-or-plain spelling) x {generic deps, no_deps, module fn, "
-             "impl-block fn, provided method of an entraited trait, required method of an entraited trait (identifiers and `_` only), macro_rules-stamped fn with the trait name as macro argument} x fn name {f, r#type, r#g, arg1} is compiled and run; the generated method's parameter list must satisfy the naming specification and "
+             "impl-block fn, provided method of an entraited trait (default delegation / static delegation target), required method of an entraited trait (identifiers and `_` only), macro_rules-stamped fn with the trait name as macro argument} x fn name {f, r#type, r#g, arg1} is compiled and run; the generated method's parameter list must satisfy the naming specification and "
              "the trait call must forward position-coded arguments positionally.",
         note=NOTE, technique="bounded-exhaustive enumeration of pattern lists on the real macro; specification model + executed trace",
         ref="DESIGN.md §3 C16"),
